@@ -15,6 +15,7 @@ LEVEL_TEXT = 'Held on the (start, span, bump) triples explored for every bump ki
 LEVEL_NOTE = 'Trusted: period strings are iterated with the real dt_bump (validated by C09); period-string endpoints carry no microseconds.'
 RULE = ('random (t0, span, bump): starts anywhere in 1950-2100, spans 0..3 years in either direction, bumps among ints, timedeltas (incl. intraday), single period strings with every '
         'unit letter and sign, business-day strings kb, compound strings, and bumps pointing away from t1; non-trivial = backward range, or |step| > 1, or compound bump; distinct = canonical hash')
+RULE_ALSO = '; added by the coverage audit and round 8: an endpoint given as an offset from the other one, nearly cancelling compounds (must raise, never loop), tz-aware endpoints, start and end with different sub-second parts, compounds naming a unit twice'
 ASSUMPTIONS = ['zero-length bumps are outside the quantifier and not generated', 'endpoints are whole days apart for int and b bumps, midnight and day<=28 for month-based units',
                'period-string bumps use endpoints without microseconds (dateutil.rrule truncates microseconds); microseconds are exercised with timedelta bumps',
                'period strings are iterated with the real dt_bump (validated separately by C09)']
